@@ -134,9 +134,33 @@ def run(ctx):
     f = prog.method("energy::indicators::n50::N50Data", "convert::From", "from")
     from ..loops import check_no_early_exit
     check_no_early_exit(ctx, "c09.loop", prog, f, "n50")
+    # the result is one record filled step by step (areas, reference permeabilities, then the test or reference branch): every path to a return must pass
+    # through an assignment of `n50` - a return before it hands back a record whose later fields still hold their defaults (n50 = 0 with a blower-door result)
+    body = f.body
+    sets = set()
+    for b_ in range(body.n):
+        for st in body.blocks[b_]["st"]:
+            if st["s"] == "assign" and isinstance(st["p"], dict) and st["p"].get("p") and str(st["p"]["p"][-1]) == ".n50":
+                sets.add(b_)
+    ctx.require(sets, "N50Data::from: no assignment to the n50 field found")
+    rets = [b_ for b_ in range(body.n) if body.blocks[b_]["term"]["t"] == "return"]
+    seen, todo, skipped = set(), [0], False
+    while todo:
+        b_ = todo.pop()
+        if b_ in seen or b_ in sets:
+            continue
+        seen.add(b_)
+        if b_ in rets:
+            skipped = True
+        todo += [x for x in body.succs(b_)]
+    if not skipped:
+        ctx.ok("c09.formula", "c09.formula|single-exit", "every path through N50Data::from assigns n50 before it returns", f.loc())
+    else:
+        ctx.violation("c09.formula", "c09.formula|single-exit", "N50Data::from can return before n50 is assigned: on that path the fields filled later (the blower-door / reference "
+                      "branch, n50, n50_ref) keep their defaults", f.loc())
     root = Scope(prog, f)
     bt = [v["name"] for v in prog.adt("bemodel::types::common::BoundaryType")["variants"]]
-    filt = [ch for (b, t, ch) in root.children() if ch.via[0] == "filter" and (ch.via[1].source_name() or "").endswith("props.walls")]
+    filt = [ch for (b, t, ch) in root.children() if ch.via[0] == "filter" and ((ch.via[1].source_name() if ch.via[1] is not None else None) or "").endswith("props.walls")]
     if not filt:
         # no filter closure: the selection may be written as `continue`s in a for loop; read it off the site that accumulates the opaque area
         site = [u for u in updates(root) if u["op"] == "+=" and u["dest"].endswith("walls_a") and "props.walls[]" in show(u["term"])]
@@ -145,7 +169,7 @@ def run(ctx):
     scope_table(ctx, "c09.scope", "c09.scope|walls", filt, ["is_tenv", "bounds"], {"bounds": bt},
                 lambda a: a["is_tenv"] and a["bounds"] == "EXTERIOR", f.loc())
     # windows of the wall: win.wall == wall_id
-    wfil = [ch for sc in root.all_scopes() for (b, t, ch) in sc.children() if ch.via[0] == "filter" and (ch.via[1].source_name() or "").endswith("props.windows")]
+    wfil = [ch for sc in root.all_scopes() for (b, t, ch) in sc.children() if ch.via[0] == "filter" and ((ch.via[1].source_name() if ch.via[1] is not None else None) or "").endswith("props.windows")]
     ctx.require(len(wfil) == 1, "N50Data::from: window filter not found")
     rn = returned_nodes(wfil[0].body)
     n0 = strip(wfil[0]._rw(rn[0][1])) if len(rn) == 1 else None
